@@ -28,17 +28,17 @@ NearCases(sx) ==
      \* k = 30000: the same residues between rasters tens of thousands of pixels apart (tolerances are absolute, in pixels)
      k \in {-2, 0, 3, 30000}, r \in {0, 15, 60}, sy \in {sx, -sx}, ty \in {0, 1935}, sh \in Shapes, o \in {[pad |-> <<>>, align |-> <<>>], [pad |-> <<0>>, align |-> <<>>], [pad |-> <<1>>, align |-> <<>>]},
      t \in {[ttol |-> <<1, 20>>, stol |-> <<1, 1000>>], [ttol |-> <<1, 20>>, stol |-> <<1, 20>>], [ttol |-> <<1, 5>>, stol |-> <<1, 1000>>], [ttol |-> <<1, 100>>, stol |-> <<1, 50>>]}}
-\* a shear / rotation of 1/64 or 1/16 pixel per pixel on an otherwise whole-pixel map: never scale + translation, whatever the tolerances
+\* a shear / rotation of 1/64 or 1/16 pixel per pixel on an otherwise whole-pixel map (either off-diagonal term alone, or both): never scale + translation, whatever the tolerances
 ShearCases ==
-  {Mk(sh, <<m * 960, b, tx, d, m * 960, ty>>, o, t) :
-     m \in {1, 2}, b \in {15, -15, 60}, d \in {0, 15, -15}, tx \in {0, 1920, -960}, ty \in {0, 960}, sh \in Shapes, o \in {[pad |-> <<>>, align |-> <<>>], [pad |-> <<0>>, align |-> <<>>]},
+  {Mk(sh, <<m * 960, bd[1], tx, bd[2], m * 960, ty>>, o, t) :
+     m \in {1, 2}, bd \in ({0, 15, -15, 60} \X {0, 15, -15}) \ {<<0, 0>>}, tx \in {0, 1920, -960}, ty \in {0, 960}, sh \in Shapes, o \in {[pad |-> <<>>, align |-> <<>>], [pad |-> <<0>>, align |-> <<>>]},
      t \in {[ttol |-> <<1, 20>>, stol |-> <<1, 1000>>], [ttol |-> <<1, 20>>, stol |-> <<1, 20>>], [ttol |-> <<1, 5>>, stol |-> <<1, 10>>]}}
 \* rasters of thousands of pixels related by a whole-pixel shift plus a rotation / shear of 2^-11 .. 2^-9 per pixel (below the default scale tolerance
 \* 1e-3 or just above it), partially overlapping: den = 2^14
 BigDen == 16384
 BigCases ==
-  {Mk(<<<<n, n>>, <<n, n>>>>, <<BigDen, b, tx * BigDen, d, BigDen, ty * BigDen>>, [pad |-> <<>>, align |-> <<>>], t) @@ [den |-> BigDen] :
-     n \in {3000}, b \in {8, -8, 32}, d \in {-8, 8, 0}, tx \in {20, -500, 1500}, ty \in {0, 700, -30},
+  {Mk(<<<<n, n>>, <<n, n>>>>, <<BigDen, bd[1], tx * BigDen, bd[2], BigDen, ty * BigDen>>, [pad |-> <<>>, align |-> <<>>], t) @@ [den |-> BigDen] :
+     n \in {3000}, bd \in ({0, 8, -8, 32} \X {-8, 8, 0}) \ {<<0, 0>>}, tx \in {20, -500, 1500}, ty \in {0, 700, -30},
      t \in {[ttol |-> <<1, 20>>, stol |-> <<1, 1000>>], [ttol |-> <<1, 20>>, stol |-> <<1, 100>>]}}
 \* whole-pixel scales 1 and 2 with residues on both sides of the translation tolerances, far apart
 FarCases ==
